@@ -40,6 +40,17 @@ def corpus_programs(tier):
         P.append((mkprog('window/aY/%d' % n, [If(B('==', V('va'), V('vb')), Block([A(Index('brr', V('Y')), Index('arr', V('Y'))) for _ in range(n)])), A(V('vc'), C(1))]), None))
         if n % 3 == 0:
             P.append((mkprog('window/wY/%d' % n, [If(B('==', V('va'), V('vb')), Block([A(V('wa'), Index('warr', V('Y'))) for _ in range(n * 6 // 10)])), A(V('vc'), C(1))]), None))
+    # near-valid statements the generator might pass through to the assembler: accepted => must assemble
+    class RawProg:
+        def __init__(self, pid, text): self.pid, self.text, self.globs, self.funcs = pid, text, [], []
+        def c(self): return self.text
+    D = 'char x, i; char *p; short w; char t[4];\nvoid fv() { }\nchar fc() { return 1; }\n'
+    for n, body in (('addr-assign', '&x = 3;'), ('addr-assign16', '&w = 3;'), ('load-void', 'load(fv());'), ('store-void', 'store(fv());'), ('strobe-void', 'strobe(fv());'), ('x-addr', 'X = &x;'), ('deref-addr', '*(&x) = 3;'),
+                    ('ptr-addr', 'p = &x; *p = 1;'), ('addr-cmp', 'if (&x) x = 1;'), ('neg-void', 'x = -fv();'), ('idx-void', 'x = t[fv()];'), ('ret-addr', 'x = &t;'), ('cass-addr', '&x += 1;'), ('inc-addr', '(&x)++;'),
+                    ('load-call', 'load(fc());'), ('store-call', 'store(fc());'), ('load-addr', 'load(&x);'), ('store-imm', 'store(3);'), ('store-X', 'store(X);'), ('load-idx', 'load(t[X]);'), ('strobe-idx', 'strobe(t[X]);'),
+                    ('user-label-for1', 'for (i = 0; i != 3; i++) { x++; } goto for1; x = 2; for1: x = 3;'), ('user-label-ifend1', 'if (x) x = 1; goto ifend1; x = 2; ifend1: x = 3;'),
+                    ('user-label-while1', 'i = 2; while (i) i--; goto while1; while1: x = 3;'), ('user-label-plain', 'goto out; x = 2; out: x = 3;'), ('user-label-twice', 'goto out; out: x = 3; goto out2; out2: x = 4;')):
+        P.append((RawProg('special/' + n, D + 'void main() { %s }\n' % body), None))
     for p in families2.g_call(q) + check_c14.extra_programs():
         names = [f.name for f in p.funcs]
         for r in range(1, len(names) + 1):
